@@ -79,6 +79,8 @@ def install_wrappers():
 def listing(d):
     out = []
     for root, dirs, files in os.walk(d):
+        for sub in sorted(dirs):  # directories count: a rejected model creates nothing
+            out.append((os.path.relpath(os.path.join(root, sub), d) + os.sep, 0, 0))
         for f in sorted(files):
             p = os.path.join(root, f)
             s = os.stat(p)
@@ -590,6 +592,9 @@ PATH_FORMS = {
 
 
 def path_cases():
+    for where in ("results/out.csv", "results/run1/out.csv", "../fresh/out.csv"):
+        for fault in ("dangling_in_writer", "dangling_later", "wrong_kind_later"):
+            yield {"form": "output_folder_missing", "out": where, "fault": fault, "present": "there", "cwd": "elsewhere"}
     for form in sorted(PATH_FORMS):
         for present in ("there", "absent", "absent_but_same_name_in_wd"):
             for cwd in ("elsewhere", "wd"):
@@ -598,12 +603,52 @@ def path_cases():
                 yield {"form": form, "present": present, "cwd": cwd}
 
 
+def check_output_folder(case, rec):
+    """The writer's file is to go into a folder that does not exist; the model has a fault that is found when the model
+    is validated: it is rejected, and no folder has appeared."""
+    from mpilot.program import EEMS_CSV_LIBRARIES, Program
+
+    tmp = tempfile.mkdtemp(prefix="vcheck-c12-")
+    try:
+        wd = os.path.join(tmp, "wd")
+        os.makedirs(wd)
+        with open(os.path.join(wd, "input.csv"), "w") as f:
+            f.write("a\n1\n2\n")
+        lines = ['R = EEMSRead(InFileName = "input.csv", InFieldName = a)']
+        fields = "[R, Nowhere]" if case["fault"] == "dangling_in_writer" else "[R]"
+        lines.append('W = EEMSWrite(OutFileName = "%s", OutFieldNames = %s)' % (case["out"], fields))
+        if case["fault"] == "dangling_later":
+            lines.append("Z = Copy(InFieldName = Nowhere)")
+        elif case["fault"] == "wrong_kind_later":
+            lines.append("Z = CvtToFuzzy(InFieldName = R, TrueThreshold = [1, 2])")
+        text = "\n".join(lines) + "\n"
+        before = listing(tmp)
+        del EXEC_LOG[:]
+        sig = "paths|output_folder_missing|%s" % case["fault"]
+        rec.label("paths:output_folder_missing")
+        rec.nontrivial_case(case)
+        try:
+            Program.from_source(text, libraries=EEMS_CSV_LIBRARIES, working_dir=wd).run()
+            return [Failure(sig + "|illformed_accepted", text)]
+        except Exception as exc:
+            if type(exc).__name__ not in ("ResultDoesNotExist", "ParameterNotValid"):
+                return [Failure(sig + "|wrong_error:%s" % type(exc).__name__, sstr(exc)[:300])]
+        if EXEC_LOG or listing(tmp) != before:
+            return [Failure(sig + "|side_effect_before_rejection", "executed %r; new in the directory: %r" % (
+                EXEC_LOG[:3], sorted(set(listing(tmp)) - set(before))))]
+        return []
+    finally:
+        shutil.rmtree(tmp, ignore_errors=True)
+
+
 def check_paths(case, rec):
     """A model is accepted exactly when the file its reader names exists -- relative names resolved against the working
     directory, whatever the process's current directory is -- and a rejected model writes nothing; an accepted one writes
     its output where the writer's path says."""
     from mpilot.program import EEMS_CSV_LIBRARIES, Program
 
+    if case["form"] == "output_folder_missing":
+        return check_output_folder(case, rec)
     spelled, real = PATH_FORMS[case["form"]]
     tmp = tempfile.mkdtemp(prefix="vcheck-c12-")
     cwd = os.getcwd()
